@@ -168,6 +168,13 @@ def run_impl(cases):
     rows = []
     extra_rows = []
     for i, c in enumerate(cases, 1):
+        # pre-screen: points at which exact intermediates leave the floating-point range are not executed at all
+        vs0 = sorted(J.variables(c["tree"]))
+
+        def _pp(p, c=c, vs0=vs0):
+            return {(vs0[0] if vs0 else "whatever"): p} if c["mode"] == "number" else p
+        if len(vs0) <= (1 if c["mode"] == "number" else 99):
+            c["pts"] = [p for p in c["pts"] if not (set(vs0) <= set(_pp(p)) and SV.out_of_range(c["tree"], _pp(p)))]
         heap = J.tree_to_heap(c["tree"], share=c["share"])
         row = {"i": i, "h": heap, "mode": c["mode"], "pts": c["pts"]}
         try:
@@ -185,11 +192,13 @@ def run_impl(cases):
                     continue
                 svars = sorted(J.variables(sub))
                 r2 = {"i": None, "h": heap[:kk], "mode": "number", "pts": c["pts"], "outs": [], "svs": []}
-                for pnum in c["pts"]:
+                if len(svars) <= 1:
+                    r2["pts"] = [pn for pn in c["pts"] if not SV.out_of_range(sub, {(svars[0] if svars else "whatever"): pn})]
+                for pnum in r2["pts"]:
                     val = J.v_to_py(pnum)
                     r2["outs"].append(J.outcome_of(lambda: objs[kk - 1].at(val)))
                     r2["svs"].append(SV.sv_record(SV.value(sub, {(svars[0] if svars else "whatever"): pnum})) if len(svars) <= 1 else {"k": "ill"})
-                extra_rows.append((r2, {"tree": sub, "share": True, "mode": "number", "pts": c["pts"]}))
+                extra_rows.append((r2, {"tree": sub, "share": True, "mode": "number", "pts": r2["pts"]}))
             continue
         root = objs[-1]
         outs, svs = [], []
